@@ -591,7 +591,7 @@ func (x *Exec) readAllFrom(fr *frame, r Value) (*Term, Value) {
 			if err != nil {
 				return nil, err
 			}
-			x.materialised = append(x.materialised, Len(data))
+			x.materialised = append(x.materialised, x.lenOf(data))
 			return data, nil
 		case "limitr":
 			s := v.Data.(*streamObj)
@@ -604,15 +604,20 @@ func (x *Exec) readAllFrom(fr *frame, r Value) (*Term, Value) {
 				if err != nil {
 					return nil, err
 				}
-				if x.Branch(Le(Len(data), s.limit)) {
-					x.materialised = append(x.materialised, Len(data))
+				if x.Branch(Le(x.lenOf(data), s.limit)) {
+					x.materialised = append(x.materialised, x.lenOf(data))
 					return data, nil
 				}
 				x.materialised = append(x.materialised, s.limit)
 				if s.kind == "maxbytes" {
 					return nil, x.errorC("http: request body too large")
 				}
-				return Substr(data, IntC(0), s.limit), nil
+				// the first limit bytes: a prefix of known length (not a complete document)
+				tr := x.fresh("truncated", SStr)
+				x.knownLen[tr.S] = s.limit
+				x.setAttr(tr, "undecodable")
+				x.assume(PrefixOf(tr, data))
+				return tr, nil
 			}
 			data, err := x.readAllFrom(fr, s.w)
 			if err != nil {
@@ -789,4 +794,21 @@ func (x *Exec) deepEqual(a, b Value, depth int) *Term {
 		}
 	}
 	panic(abortf("DeepEqual of %T and %T", a, b))
+}
+
+// lenOf is len(t), using the integer length recorded for payload symbols.
+func (x *Exec) lenOf(t *Term) *Term {
+	if t.Op == "sym" {
+		if n, ok := x.knownLen[t.S]; ok {
+			return n
+		}
+	}
+	if t.Op == "++" {
+		sum := IntC(0)
+		for _, p := range t.Args {
+			sum = Add(sum, x.lenOf(p))
+		}
+		return sum
+	}
+	return Len(t)
 }
